@@ -237,7 +237,10 @@ def genExt (depth : Nat) (idx : Nat) (s : R) : Ext × R :=
       | k+1, s, acc => let p := genParam ("q" ++ toString k) (lcg s); ps k p.2 (p.1 :: acc)
     let rest := ps np (lcg p0.2) []
     let body := genItems depth (sel rest.2 4) (lcg rest.2)
-    (.fdefp { specs := sp.1, fd := { x := "g" ++ toString idx, params := { first := p0.1, more := rest.1 } }, body := body.1 }, body.2)
+    if sel body.2 4 == 0 then
+      (.fdefp { specs := sp.1, fd := { x := "h" ++ toString idx, params := .void }, body := body.1 }, lcg body.2)
+    else
+      (.fdefp { specs := sp.1, fd := { x := "g" ++ toString idx, params := .named { first := p0.1, more := rest.1 } }, body := body.1 }, lcg body.2)
 
 def genProgram (depth n : Nat) (s : R) : List Ext × R :=
   let rec go : Nat → R → List Ext → List Ext × R
